@@ -32,11 +32,12 @@ fn b_from_wire(raptorq: bool, l: u64, e: u64, b: u64, z: u64) -> Result<Option<u
 }
 
 pub fn partition(args: &Args) {
+    let bmin = args.u64("bmin", 1);
     let bmax = args.u64("bmax", 16);
     let emax = args.u64("emax", 8);
     let lmax = args.u64("lmax", 300);
     let mut out = Out::new(args.get("out"));
-    for b in 1..=bmax {
+    for b in bmin..=bmax {
         for e in 1..=emax {
             let mut q = Vec::new();
             let mut rle = Vec::new();
@@ -87,6 +88,61 @@ pub fn partition(args: &Args) {
                 }
             }
             out.emit(&json!({"ev":"part","B":b,"E":e,"lmax":lmax,"q":q,"rle":rle,"qz6":qz6,"qz1":qz1}));
+        }
+    }
+    out.flush();
+}
+
+/// Boundary and seeded random triples up to B < 2^32, E <= 65535, L < 2^48 (C07, judged by
+/// Apalache with PartitionCore.tla on unbounded integers).
+pub fn partition_big(args: &Args) {
+    use rand::{RngExt, SeedableRng};
+    let n = args.u64("n", 200);
+    let seed = args.u64("seed", 1);
+    let mut rng = rand::rngs::StdRng::seed_from_u64(seed);
+    let mut out = Out::new(args.get("out"));
+    let lb: Vec<u64> = vec![0, 1, 2, 255, 256, 65535, 65536, (1 << 32) - 1, 1 << 32, (1 << 40) - 1, 1 << 40,
+                            (1 << 48) - 2, (1 << 48) - 1];
+    let eb: Vec<u64> = vec![1, 2, 3, 4, 255, 256, 1024, 1400, 65534, 65535];
+    let bb: Vec<u64> = vec![1, 2, 3, 64, 255, 256, 65535, 65536, (1 << 31) - 1, 1 << 31, (1u64 << 32) - 1];
+    let mut triples: Vec<(u64, u64, u64)> = Vec::new();
+    for &l in &lb { for &e in &eb { for &b in &bb { triples.push((b, e, l)); } } }
+    // keep a seeded sample of the boundary product, then seeded random ones
+    let mut picked: Vec<(u64, u64, u64)> = Vec::new();
+    let nb = (n / 2).min(triples.len() as u64);
+    for _ in 0..nb {
+        let i = rng.random_range(0..triples.len());
+        picked.push(triples.swap_remove(i));
+    }
+    while (picked.len() as u64) < n {
+        let lbits = rng.random_range(0..=48u32);
+        let l = if lbits == 0 { 0 } else { rng.random_range(0..(1u64 << lbits)) };
+        let ebits = rng.random_range(1..=16u32);
+        let e = rng.random_range(1..(1u64 << ebits)).min(65535);
+        let bbits = rng.random_range(1..=32u32);
+        let b = rng.random_range(1..(1u64 << bbits)).min((1u64 << 32) - 1);
+        picked.push((b, e, l));
+    }
+    for (b, e, l) in picked {
+        let quad = catch(|| verif::block_partitioning(b, l, e));
+        match quad {
+            Err(m) => out.emit(&json!({"ev":"bigpart","B":b,"E":e,"L":l,"q":{"k":"panic","m":m},"bl":[]})),
+            Ok((al, as_, nl, nn)) => {
+                let mut bl = Vec::new();
+                if nn > 0 && nn <= (1u64 << 32) {
+                    let mut sbns: Vec<u64> = vec![0, nn - 1, nn / 2];
+                    if nl > 0 { sbns.push(nl - 1); }
+                    if nl < nn { sbns.push(nl); }
+                    sbns.sort(); sbns.dedup();
+                    for sbn in sbns {
+                        match catch(|| verif::block_length(al, as_, nl, l, e, sbn as u32)) {
+                            Ok(len) => bl.push(json!({"k":"ok","sbn":sbn,"len":len})),
+                            Err(m) => bl.push(json!({"k":"panic","sbn":sbn,"m":m})),
+                        }
+                    }
+                }
+                out.emit(&json!({"ev":"bigpart","B":b,"E":e,"L":l,"q":{"k":"ok","v":[al,as_,nl,nn]},"bl":bl}));
+            }
         }
     }
     out.flush();
